@@ -185,6 +185,13 @@ func hook(p string, a any) {
 		return
 	}
 	name, _ := a.(string)
+	// Every file-system step is bracketed by a :before and an :after point, so at a :before point
+	// the directory is what it was at the previous point (runCrash checks the assumption at the end
+	// of every operation, and crash-real-death compares with real deaths).
+	if n := len(*recPoints); n > 0 && strings.HasSuffix(p, ":before") {
+		*recPoints = append(*recPoints, point{name: p, file: name, snap: (*recPoints)[n-1].snap})
+		return
+	}
 	*recPoints = append(*recPoints, point{name: p, file: name, snap: takeSnap(recDir)})
 }
 
